@@ -430,6 +430,13 @@ func genPatchCases(r *rand.Rand) []pcase {
 	out = append(out,
 		pcase{"ietf:valid", jp(op("add", "/other", M{"value": 1.0}), op("remove", "/x/0", nil), op("copy", "/b", M{"from": "/a"}), op("test", "/a", M{"value": "v"})), true},
 		pcase{"ietf:valid-sibling-name", jp(op("add", "/publicKe", M{"value": 1.0}), op("add", "/servic", M{"value": 1.0})), true},
+		// operations after a move / copy are judged on their own members: a location below the source of
+		// an earlier copy or move, the source itself, the target
+		pcase{"ietf:copy-then-add-below-its-source", jp(op("copy", "/backup", M{"from": "/profile"}), op("add", "/profile/nick", M{"value": "n"})), true},
+		pcase{"ietf:move-then-add-below-its-source", jp(op("move", "/new", M{"from": "/old"}), op("add", "/old/x", M{"value": 1.0}), op("remove", "/old", nil)), true},
+		pcase{"ietf:copy-then-test-replace-remove-below-its-source", jp(op("copy", "/b", M{"from": "/a"}), op("test", "/a/k", M{"value": 1.0}), op("replace", "/a/k", M{"value": 2.0}), op("remove", "/a/k/deep", nil)), true},
+		pcase{"ietf:copy-into-its-own-child", jp(op("copy", "/a/child", M{"from": "/a"})), true},
+		pcase{"ietf:move-into-its-own-child", jp(op("move", "/a/child/deeper", M{"from": "/a"})), true},
 		pcase{"ietf:empty-list", jp(), false},
 		pcase{"ietf:not-a-list", M{"action": "ietf-json-patch", "patches": M{}}, false},
 		pcase{"ietf:op-not-object", jp("add"), false},
